@@ -155,6 +155,7 @@ func (n *ServerNode) GetStats(offset uint32, falseNeg bool) (*server.AllDeviceSt
 		target += "&insert_false_negatives=true"
 	}
 	res := n.Get(target)
+	n.LastBody = trim(res.Body)
 	if res.Status != 200 {
 		return nil, res.Status
 	}
@@ -261,4 +262,78 @@ func snapDiff(a, b *server.VerifSnap) string {
 		return "no difference in the listed fields"
 	}
 	return "differs in " + strings.Join(d, ", ")
+}
+
+// DoAuthorizeServer posts a server authorization to real and model.
+func (n *ServerNode) DoAuthorizeServer(as server.AuthorizedServer) bool {
+	res := n.PostJSON("/api/v1/authorized-servers", as)
+	want := n.Model.AuthorizeServer(as)
+	if (res.Status == 200) != want {
+		n.W.Fail(n.W.Prop+".srv-model", "post", "server authorization for %s (banned=%v): status %d, model accepts=%v", RoleOf(as.PublicKey), as.Banned, res.Status, want)
+	}
+	return want
+}
+
+// DoMigrate posts a migration order to real and model.
+func (n *ServerNode) DoMigrate(em server.EquipmentMigration) bool {
+	res := n.PostJSON("/api/v1/equipment-migrate", em)
+	want := n.Model.Migrate(em)
+	if (res.Status == 200) != want {
+		n.W.Fail(n.W.Prop+".authority", "migrate", "migration order for %s: status %d, model accepts=%v", RoleOf(em.Equipment), res.Status, want)
+	}
+	return want
+}
+
+// GetServers fetches the authorized server list.
+func (n *ServerNode) GetServers() []server.AuthorizedServer {
+	res := n.Get("/api/v1/authorized-servers")
+	if res.Status != 200 {
+		n.W.Fail(n.W.Prop+".srv-model", "get", "authorized-servers not served: %d", res.Status)
+	}
+	var r server.AuthorizedServersResponse
+	if err := json.Unmarshal(res.Body, &r); err != nil {
+		n.W.Fail(n.W.Prop+".decode", "authorized-servers", "reply does not decode: %v", err)
+	}
+	return r.AuthorizedServers
+}
+
+// CheckServers compares the served list with the model list (order kept).
+func (n *ServerNode) CheckServers(rule string) {
+	got := n.GetServers()
+	want := n.Model.Servers
+	if len(got) != len(want) {
+		n.W.Fail(rule, "list", "server list has %d entries, model %d", len(got), len(want))
+	}
+	for i := range got {
+		if !reflect.DeepEqual(got[i], want[i]) {
+			n.W.Fail(rule, "list", "server list entry %d (%s) differs from the model: got banned=%v loc=%q ports=%d/%d/%d, want banned=%v loc=%q ports=%d/%d/%d", i, RoleOf(got[i].PublicKey), got[i].Banned, got[i].Location, got[i].HttpPort, got[i].TcpPort, got[i].UdpPort, want[i].Banned, want[i].Location, want[i].HttpPort, want[i].TcpPort, want[i].UdpPort)
+		}
+	}
+	s := n.Snap()
+	if len(s.Migrations) != len(n.Model.Migrations) {
+		n.W.Fail(n.W.Prop+".authority", "migrations", "%d migration orders stored, model %d", len(s.Migrations), len(n.Model.Migrations))
+	}
+	for k, v := range n.Model.Migrations {
+		if !reflect.DeepEqual(s.Migrations[k], v) {
+			n.W.Fail(n.W.Prop+".authority", "migrations", "stored migration order for %s differs from the accepted one", RoleOf(k))
+		}
+	}
+}
+
+// GetEquipment fetches the equipment list.
+func (n *ServerNode) GetEquipment() map[uint32]glow.EquipmentAuthorization {
+	res := n.Get("/api/v1/equipment")
+	if res.Status != 200 {
+		n.W.Fail(n.W.Prop+".model", "equipment", "equipment list not served: %d", res.Status)
+	}
+	var r server.EquipmentResponse
+	if err := json.Unmarshal(res.Body, &r); err != nil {
+		n.W.Fail(n.W.Prop+".decode", "equipment", "reply does not decode: %v", err)
+	}
+	return r.EquipmentDetails
+}
+
+// GetRecentStatus fetches recent-reports for a key and returns the status only.
+func (n *ServerNode) GetRecentStatus(pub glow.PublicKey) int {
+	return n.Get("/api/v1/recent-reports?publicKey=" + hex.EncodeToString(pub[:])).Status
 }
